@@ -49,6 +49,7 @@ type c08Job struct {
 	Seed    int64     `json:"seed"`
 	Timeout int       `json:"timeout"`
 	Files   []c08File `json:"files"`
+	Dir     bool      `json:"dirmode"`
 }
 
 // ---------------------------------------------------------------- geometry (units <-> bytes)
@@ -291,7 +292,7 @@ func c08Exec(j *c08Job, work string) (*c08Run, error) {
 	pre := c08Others(dst, names)
 	srcPre := c08Others(srcRoot, nil)
 
-	o := e2eOpts{Upload: j.Upload, Binary: j.Binary, Overwrite: true, Protocol: j.Proto, Compress: []int{2, 0}[j.ID%2], // auto compression probes the file (isCompressionProfitable) on half of the runs
+	o := e2eOpts{Upload: j.Upload, Binary: j.Binary, Overwrite: true, Directory: j.Dir, Protocol: j.Proto, Compress: []int{2, 0}[j.ID%2], // auto compression probes the file (isCompressionProfitable) on half of the runs
 		Bufsize: 1 << 20, Timeout: j.Timeout, Src: r.srcPaths, Dst: dst}
 	w := newE2EWire(j.Seed, 0)
 	w.run = j.ID
